@@ -26,15 +26,62 @@ impl<'a> Harness<'a> {
 
     #[cfg(feature = "async")]
     pub(super) fn exec(mut self, f: impl FnOnce()) -> Self {
+        use std::{
+            future::{poll_fn, Future},
+            pin::pin,
+            sync::{atomic::AtomicBool, Arc},
+            task::{Context, Poll, Wake, Waker},
+        };
+
+        /// Set when the `LocalSet` has (or may have) runnable tasks left.
+        struct LocalWork(AtomicBool);
+        impl Wake for LocalWork {
+            fn wake(self: Arc<Self>) {
+                self.0.store(true, Ordering::SeqCst);
+            }
+        }
+
         let Some((rt, task_set)) = self.ctx.async_ext.write().rt.current() else {
             panic!("simulation error: tokio runtime was lost during execution");
         };
 
         self.unwind = catch_unwind(AssertUnwindSafe(|| {
-            task_set.block_on(&rt, async move {
-                f();
-                tokio::task::yield_now().await;
-            });
+            let mut f = Some(f);
+            let local_work = Arc::new(LocalWork(AtomicBool::new(false)));
+            let local_waker = Waker::from(local_work.clone());
+            let metrics = rt.metrics();
+
+            // All tasks that are, or become, runnable must be polled before the event ends,
+            // else they would only continue at the next event of this module, at a later
+            // simulation time. Every poll of this future is one turn of the executor:
+            // (1) the local set polls up to 61 of its tasks, waking `local_waker` if more are
+            //     left (as does everybody who wakes a local task later on),
+            // (2) once `Pending` is returned, the runtime polls its queued tasks,
+            // (3) deferred wakers (`yield_now`, exhausted coop budgets) are woken, including
+            //     the one of this future, which is thus polled again.
+            // The turns end once a turn starts with nothing runnable on either queue.
+            rt.block_on(poll_fn(|cx| {
+                let started = f.is_none();
+                if started
+                    && !local_work.0.swap(false, Ordering::SeqCst)
+                    && metrics.worker_local_queue_depth(0) == 0
+                    && metrics.global_queue_depth() == 0
+                {
+                    return Poll::Ready(());
+                }
+
+                let _ = pin!(task_set.run_until(poll_fn(|_| {
+                    if let Some(f) = f.take() {
+                        f();
+                    }
+                    Poll::<()>::Pending
+                })))
+                .poll(&mut Context::from_waker(&local_waker));
+
+                // defer the wakeup of this future until the runtime has polled its tasks
+                let _ = pin!(tokio::task::yield_now()).poll(cx);
+                Poll::Pending
+            }));
         }))
         .err();
         self
